@@ -25,7 +25,7 @@ def obligations(tier):
         g = S.real_grammar(lang)
         obs.append(S.SOb('C12.labels[%s,n=%d,tags=1:%s]' % (g['name'], len(tags), tags), g, len(tags), S.one_tag(len(tags), g['T'], tags), pruning=1, penalty='sym'))
     if not q:
-        obs.append(S.SOb('C12.labels[G4,n=3,tags=1:[0,1,0],nbest=3]', g4, 3, S.one_tag(3, 2, [0, 1, 0]), pruning=1, penalty='sym', nbest=3, max_seconds=900))
+        obs.append(S.SOb('C12.labels[G4,n=3,tags=1:[0,1,0],nbest=3]', g4, 3, S.one_tag(3, 2, [0, 1, 0]), pruning=1, penalty='sym', nbest=3, max_seconds=450))
     return obs
 
 
